@@ -11,14 +11,22 @@ type RaceReport struct {
 	Kinds   [2]string   // "read" | "write"
 	Frames  [2]string   // innermost library function of each access ("" if none)
 	Stacks  [2][]string // all library functions on each access's stack, innermost first
-	Harness bool        // neither stack has a library frame: the harness itself raced
+	Harness bool        // neither stack has a library frame and the accesses are not the operation layer's: the harness itself raced
+	Via     [2]string   // innermost frame of the operation layer (verif/world) on each stack, "" if none
 	Text    string
 }
 
 // Sig is the unordered pair kind@function, line numbers dropped.
 func (r RaceReport) Sig() string {
-	a := r.Kinds[0] + "@" + r.Frames[0]
-	b := r.Kinds[1] + "@" + r.Frames[1]
+	fa, fb := r.Frames[0], r.Frames[1]
+	if fa == "" && r.Via[0] != "" {
+		fa = "public-structs-via-" + r.Via[0]
+	}
+	if fb == "" && r.Via[1] != "" {
+		fb = "public-structs-via-" + r.Via[1]
+	}
+	a := r.Kinds[0] + "@" + fa
+	b := r.Kinds[1] + "@" + fb
 	if b < a {
 		a, b = b, a
 	}
@@ -64,6 +72,18 @@ func ParseRaceLog(s string) []RaceReport {
 						}
 						rep.Stacks[idx] = append(rep.Stacks[idx], frameName(f))
 					}
+					if strings.HasPrefix(f, "verif/world.") && rep.Via[idx] == "" {
+						v := strings.TrimPrefix(f, "verif/world.")
+						if k := strings.Index(v, "("); k > 0 && !strings.HasPrefix(v, "(") {
+							v = v[:k]
+						} else if strings.HasPrefix(v, "(*World).") {
+							v = strings.TrimPrefix(v, "(*World).")
+							if k := strings.Index(v, "("); k > 0 {
+								v = v[:k]
+							}
+						}
+						rep.Via[idx] = strings.TrimSuffix(v, ".func1")
+					}
 				}
 				continue
 			}
@@ -71,7 +91,10 @@ func ParseRaceLog(s string) []RaceReport {
 				break
 			}
 		}
-		rep.Harness = rep.Frames[0] == "" && rep.Frames[1] == ""
+		// Two tasks that race without any library frame, both inside the operation layer, touch memory that
+		// is reachable from two different documents through the public structs (each task has its own World and
+		// the operation layer owns no shared mutable state): that is the library's sharing, not the harness's.
+		rep.Harness = rep.Frames[0] == "" && rep.Frames[1] == "" && !(rep.Via[0] != "" && rep.Via[1] != "")
 		out = append(out, rep)
 	}
 	return out
